@@ -188,6 +188,10 @@ def _case(draw):
             focus['del'] = True
             if not focus['items']:
                 focus['items'] = [['a', tdoc.sc(1)]]
+            if not path and mode == 'a' and draw(st.integers(0, 4)) == 0:
+                # a whole document that resets everything: '--- !del {}' (below a key an empty !del mapping is the remove-this-key idiom)
+                focus['items'] = []
+                focus['flow'] = True
         if weak_focus:
             focus['prio'] = -1
         focus['mdstyle'] = draw(st.sampled_from(['short', 'braces', 'hex']))
